@@ -10,7 +10,8 @@
 (*   reset   header: R (retry limit), D (configured initial delay),        *)
 (*           hosts / prio (parallel arrays), up (registry named in the     *)
 (*           reference), slack, layer, waive                               *)
-(*   do      a logical request starts (id, mut, nomir, ie, tc)             *)
+(*   do      a logical request starts (id, mut, nomir, ie, tc; os = 1: its *)
+(*           body can be produced only once)                               *)
 (*   seek    the caller seeks on the response (id, tc)                     *)
 (*   read    the caller starts reading the body to the end (id, tc)        *)
 (*   att     one request on the wire and its reply: host h, arrival ta,    *)
@@ -23,6 +24,11 @@
 (*   op      layer 2: an operation of scheme/reg starts (tc)               *)
 (*   result  layer 2: the operation returned (eqret, eqstate: equal to     *)
 (*           the fault-free run)                                           *)
+(*   cancel  the caller cancelled the context of a logical request (id)    *)
+(*   quiet   nothing is in progress and every response is closed: `free`   *)
+(*           of the `conc` throttle slots of host h can be taken;          *)
+(*           obligation slot-leak (a slot that is gone makes a later       *)
+(*           operation wait for ever: termination)                         *)
 (*   hang    a call is parked for good (the driver proved it from the      *)
 (*           goroutine dump); obligation no-termination                    *)
 (*   note    ignored                                                       *)
@@ -117,8 +123,18 @@ First(m, checks) ==
 
 \* ------------------------------------------------------- API level events
 PDo(m, e) ==
-  [m EXCEPT !.lq = Put(m.lq, e.id, [mut |-> e.mut, nomir |-> e.nomir, ie |-> e.ie, n |-> 0, seeks |-> 0]),
+  [m EXCEPT !.lq = Put(m.lq, e.id, [mut |-> e.mut, nomir |-> e.nomir, ie |-> e.ie, n |-> 0, seeks |-> 0, cancelled |-> 0,
+                                         os |-> IF "os" \in DOMAIN e THEN e.os ELSE 0]),
             !.rd = NewRound(e.tc, ""), !.lastk = "", !.lasttr = e.tc]
+
+\* the caller cancelled the context of this logical request: its later failures are the caller's
+PCancel(m, e) ==
+  IF e.id \notin DOMAIN m.lq THEN Fail(m, "trace-malformed")
+  ELSE [m EXCEPT !.lq[e.id].cancelled = 1]
+
+\* quiescence: every response is closed / every call returned; `free` of the host's `conc` throttle slots
+\* can be taken (fact logged by the driver through the public throttle of the client)
+PQuiet(m, e) == First(m, << <<e.free < e.conc, "slot-leak">> >>)
 
 PSeek(m, e) ==
   IF e.id \notin DOMAIN m.lq THEN Fail(m, "trace-malformed")
@@ -227,7 +243,10 @@ PRet(m, e) ==
   IF e.id \notin DOMAIN m.lq THEN Fail(m, "trace-malformed") ELSE
   LET q == m.lq[e.id]
       S == IF q.nomir = 1 THEN {m.up} ELSE m.hosts
-      justified == \/ m.nfail >= m.R
+      \* os: the caller's body can be sent only once, so one failed attempt ends the request
+      justified == \/ q.cancelled = 1
+                   \/ (q.os = 1 /\ m.rd.failed # {})
+                   \/ m.nfail >= m.R
                    \/ S \subseteq m.rd.dropped
                    \/ (q.ie = 1 /\ S \subseteq m.rd.failed)
   IN First(m, << <<e.call \in {"do", "read", "seek"} /\ e.ok = 0 /\ ~justified, "gave-up-early">>,
@@ -236,7 +255,9 @@ PRet(m, e) ==
 PResult(m, e) ==
   \* only transient faults were injected, fewer than the limit; and neither one logical request
   \* (run) nor the hosts' failure history (natural failures of mirrors included) reached it
+  \* (os = 1: the caller handed over a source that can be read only once, nothing can be re-sent)
   LET pre == m.injo = 0 /\ m.injt < m.R /\ m.maxrunfail < m.R /\ m.nbo < m.R
+             /\ (IF "os" \in DOMAIN e THEN e.os = 0 ELSE TRUE)
   IN First(m, << <<pre /\ (e.eqret = 0 \/ e.eqstate = 0), "result-differs">> >>)
 
 \* ------------------------------------------------------------------ step
@@ -251,6 +272,8 @@ PStep(m, e) ==
     [] e.ev = "ret"    -> PRet(m, e)
     [] e.ev = "result" -> PResult(m, e)
     [] e.ev = "hang"   -> Fail(m, "no-termination")
+    [] e.ev = "cancel" -> PCancel(m, e)
+    [] e.ev = "quiet"  -> PQuiet(m, e)
     [] e.ev = "note"   -> m
     [] OTHER           -> Fail(m, "trace-malformed")
 
